@@ -17,6 +17,13 @@ NA = {
 
 # property -> check description; filled in as units are built
 CHECKS = {
+    "C09": {
+        "category": "proof",
+        "technique": "Kani function-level contract harnesses (loop-free, full register domain) on every mechanically enumerated wrapper of the compiled rusl crate, stub syscall instruction",
+        "text": "For each of the ~80 raw wrappers (enumerated from the source on every run; an uncovered wrapper makes the run undecided) a loop-free Kani harness proves, for every 64-bit register value the stubbed `syscall` can return: exactly one call issued; Err iff register in [-4095,-1]; errno = negated register in 1..=4095; Ok carries the register unchanged in the result type. Loop-free over the full domain is a complete proof per wrapper; dup2/dup3 are explored under a 3-call budget (stateless retry loop) and listed as bounded.",
+        "note": "Trusted: Kani/CBMC; the stub replaces the syscall instruction; out-parameters are not filled (pipe2: filled with arbitrary non-negative ints). Excluded (listed in evidence): exit, get_pid, clock_get_{real,monotonic}_time (no Result), setup_io_uring (composite), stat_fd (const fat pointer unsupported by Kani; same helper as stat/statat).",
+        "design_ref": "§4.C09",
+    },
     "C19": {
         "category": "proof",
         "technique": "Verus contracts on the extracted real helpers + Kani full-domain loop-free proofs on the compiled public API",
